@@ -278,6 +278,13 @@ Definition parse_start_key (ks : keyschema) (defs : fmap str) (esk : item) : str
   | _ => match get_key ks defs esk with inr k => k | inl _ => [] end
   end.
 
+(* whether the request names a start key at all (the key string itself may be empty) *)
+Definition has_start_key (ks : keyschema) (defs : fmap str) (esk : item) : bool :=
+  match esk with
+  | [] => false
+  | _ => match get_key ks defs esk with inr _ => true | inl _ => false end
+  end.
+
 (* afterStartKey *)
 Definition after_start_key (k pk start_ik start_pk : str) (forward : bool) : bool :=
   if negb (str_eqb k start_ik) then Bool.eqb (str_ltb start_ik k) forward
@@ -289,7 +296,7 @@ Record sstate := {
 }.
 
 (* one iteration of the loop; returns the new state and whether the page breaks *)
-Definition search_step (c : ictx) (t : table) (q : query) (start_ik start_pk : str)
+Definition search_step (c : ictx) (t : table) (q : query) (has_pos : bool) (start_ik start_pk : str)
     (e : str * option str) (s : sstate) : outcome (sstate * bool) :=
   let '(k, opk) := e in
   let skip := Ok ({| s_started := s_started s; s_count := s_count s; s_scanned := S (s_scanned s);
@@ -313,21 +320,20 @@ Definition search_step (c : ictx) (t : table) (q : query) (start_ik start_pk : s
                  s_fired := s_fired s ++ f |},
               negb (Nat.eqb (q_limit q) 0) && Nat.eqb (q_limit q) count')) in
       if s_started s then go true
-      else match start_ik with
-           | [] => (* position unknown: wait for the item itself *)
+      else if has_pos
+           then (if after_start_key k pk start_ik start_pk (q_forward q) then go true else skip)
+           else (* position unknown: wait for the item itself *)
                Ok ({| s_started := str_eqb pk start_pk; s_count := s_count s; s_scanned := S (s_scanned s);
                       s_last := s_last s; s_items := s_items s; s_fired := s_fired s |}, false)
-           | _ => if after_start_key k pk start_ik start_pk (q_forward q) then go true else skip
-           end
   end.
 
-Fixpoint search_loop (c : ictx) (t : table) (q : query) (start_ik start_pk : str)
+Fixpoint search_loop (c : ictx) (t : table) (q : query) (has_pos : bool) (start_ik start_pk : str)
     (es : list (str * option str)) (s : sstate) : outcome sstate :=
   match es with
   | [] => Ok s
   | e :: rest =>
-      obind (search_step c t q start_ik start_pk e s) (fun '(s', brk) =>
-        if brk then Ok s' else search_loop c t q start_ik start_pk rest s')
+      obind (search_step c t q has_pos start_ik start_pk e s) (fun '(s', brk) =>
+        if brk then Ok s' else search_loop c t q has_pos start_ik start_pk rest s')
   end.
 
 Definition merge_items (a b : item) : item := fold_left (fun acc kv => insert (fst kv) (snd kv) acc) b a.
@@ -350,9 +356,10 @@ Definition search_data (c : ictx) (t : table) (q : query) : outcome (list item *
                  end
     | None => start_pk
     end in
-  let s0 := {| s_started := match start_pk with [] => true | _ => false end;
+  let has_pos := match oix with Some _ => match start_ik with [] => false | _ => true end | None => true end in
+  let s0 := {| s_started := negb (has_start_key (t_ks t) (t_defs t) (q_esk q));
                s_count := 0; s_scanned := 0; s_last := []; s_items := []; s_fired := [] |} in
-  obind (search_loop c t q start_ik start_pk entries s0) (fun s =>
+  obind (search_loop c t q has_pos start_ik start_pk entries s0) (fun s =>
     let lek :=
       match s_last s with
       | [] => []
